@@ -11,6 +11,8 @@ rl.on('line', line => { if(!line.trim())return;
   const ctx = vm.createContext({console: con});
   let out = {id: v.id, status:'', value:'', err:'', log: log};
   try { const r = vm.runInContext(v.src, ctx, {timeout: 3000}); out.status='ok'; out.value = show(r); }
-  catch (e) { if (e && e.code==='ERR_SCRIPT_EXECUTION_TIMEOUT') { out.status='budget'; } else { out.status='err'; out.err = (e instanceof Object && typeof e.name==='string') ? e.name : 'Thrown'; try { const E = vm.runInContext('Error', ctx); if (!(e instanceof E) && !(e instanceof Error)) out.err='Thrown'; } catch(_){} } }
+  catch (e) { if (e && e.code==='ERR_SCRIPT_EXECUTION_TIMEOUT') { out.status='budget'; } else { out.status='err';
+      // error objects of any realm have string name/message/stack; anything else is a thrown non-error
+      out.err = (e !== null && typeof e === 'object' && typeof e.name==='string' && typeof e.message==='string' && typeof e.stack==='string') ? e.name : 'Thrown'; } }
   console.log(JSON.stringify(out));
 });
